@@ -1,0 +1,77 @@
+//go:build verif
+// +build verif
+
+// Verification hooks.  This file is only compiled with `-tags verif`; it adds
+// a per-instruction callback and read-only accessors used by external runtime
+// monitors.  Nothing here changes behaviour unless a hook is installed.
+
+package vm
+
+import (
+	"github.com/skx/evalfilter/v2/code"
+	"github.com/skx/evalfilter/v2/environment"
+	"github.com/skx/evalfilter/v2/object"
+)
+
+// VerifStepFn is called before every instruction is dispatched (also inside
+// user-defined functions).  A non-nil error aborts the run with that error.
+type VerifStepFn func(vm *VM, ip int, op code.Opcode) error
+
+type verifState struct {
+	hook VerifStepFn
+}
+
+func (vm *VM) verifStep(ip int, op code.Opcode) error {
+	if vm.verif.hook == nil {
+		return nil
+	}
+	return vm.verif.hook(vm, ip, op)
+}
+
+// VerifSetStepHook installs (or with nil removes) the step hook.
+func (vm *VM) VerifSetStepHook(fn VerifStepFn) { vm.verif.hook = fn }
+
+// VerifBytecode returns a copy of the bytecode the machine is currently
+// pointed at (the main program at quiescent points).
+func (vm *VM) VerifBytecode() code.Instructions {
+	out := make(code.Instructions, len(vm.bytecode))
+	copy(out, vm.bytecode)
+	return out
+}
+
+// VerifCurrentOperand returns the two-byte operand at ip+1 or -1.
+func (vm *VM) VerifCurrentOperand(ip int) int {
+	if ip+2 < len(vm.bytecode) {
+		return int(vm.bytecode[ip+1])<<8 | int(vm.bytecode[ip+2])
+	}
+	return -1
+}
+
+// VerifConstants returns the constant pool (the live slice, not a copy of the
+// objects: monitors must not mutate them).
+func (vm *VM) VerifConstants() []object.Object {
+	out := make([]object.Object, len(vm.constants))
+	copy(out, vm.constants)
+	return out
+}
+
+// VerifFunctions returns the user-defined functions as the machine will run them.
+func (vm *VM) VerifFunctions() map[string]environment.UserFunction {
+	out := make(map[string]environment.UserFunction, len(vm.functions))
+	for k, v := range vm.functions {
+		b := make(code.Instructions, len(v.Bytecode))
+		copy(b, v.Bytecode)
+		a := make([]string, len(v.Arguments))
+		copy(a, v.Arguments)
+		out[k] = environment.UserFunction{Arguments: a, Bytecode: b}
+	}
+	return out
+}
+
+// VerifStackDepth returns the depth of the current value stack.
+func (vm *VM) VerifStackDepth() int { return vm.stack.Size() }
+
+// VerifStackPeek returns the n-th entry from the top (0 = top) or nil.
+func (vm *VM) VerifStackPeek(n int) object.Object {
+	return vm.stack.VerifPeek(n)
+}
